@@ -113,12 +113,19 @@ theorem applyEntry_continue {n n' : Node} {e : Entry} {evs : List Ev} (h : apply
     split at h
     · simp at h
     · rename_i hsv
-      simp only [Prod.mk.injEq, and_true] at h
-      obtain ⟨rfl, rfl⟩ := h
-      refine ⟨rfl, rfl, rfl, rfl, ?_, ?_, ?_⟩
-      · rintro ⟨v', hv', hlt⟩; rw [hv] at hv'; cases hv'; omega
-      · simp [ranIdxs_fireCallbacks, ranIdxs]
-      · simp only; omega
+      split at h
+      · simp only [Prod.mk.injEq, and_true] at h
+        obtain ⟨rfl, rfl⟩ := h
+        refine ⟨rfl, rfl, rfl, rfl, ?_, ?_, ?_⟩
+        · rintro ⟨v', hv', hlt⟩; rw [hv] at hv'; cases hv'; omega
+        · simp [ranIdxs_fireCallbacks]
+        · simp only; omega
+      · simp only [Prod.mk.injEq, and_true] at h
+        obtain ⟨rfl, rfl⟩ := h
+        refine ⟨rfl, rfl, rfl, rfl, ?_, ?_, ?_⟩
+        · rintro ⟨v', hv', hlt⟩; rw [hv] at hv'; cases hv'; omega
+        · simp [ranIdxs_fireCallbacks, ranIdxs]
+        · simp only; omega
   · rename_i fid arg hc
     split at h
     · simp only [Prod.mk.injEq, and_true] at h
@@ -152,7 +159,7 @@ theorem applyEntry_stop {n n' : Node} {e : Entry} {evs : List Ev} (h : applyEntr
     · simp only [Prod.mk.injEq, and_true] at h
       obtain ⟨rfl, rfl⟩ := h
       exact ⟨rfl, rfl, rfl, rfl, rfl, rfl⟩
-    · simp at h
+    · split at h <;> simp at h
   · split at h
     · simp at h
     · simp at h
@@ -170,7 +177,7 @@ theorem applyEntry_stop_iff {n n' : Node} {e : Entry} {evs : List Ev} (h : apply
     · rename_i hlt
       simp only [Prod.mk.injEq, and_true] at h
       exact ⟨⟨v, hv, hlt⟩, h.1.symm⟩
-    · simp at h
+    · split at h <;> simp at h
   · split at h
     · simp at h
     · simp at h
@@ -243,9 +250,13 @@ theorem applyBatch_spec : ∀ (es : List Entry) (n n' : Node) (evs : List Ev),
                   split at hae
                   · split at hae
                     · simp at hae
-                    · simp only [Prod.mk.injEq, and_true] at hae
-                      obtain ⟨_, rfl⟩ := hae
-                      simp [ranIdxs_fireCallbacks, ranIdxs]
+                    · split at hae
+                      · simp only [Prod.mk.injEq, and_true] at hae
+                        obtain ⟨_, rfl⟩ := hae
+                        simp [ranIdxs_fireCallbacks]
+                      · simp only [Prod.mk.injEq, and_true] at hae
+                        obtain ⟨_, rfl⟩ := hae
+                        simp [ranIdxs_fireCallbacks, ranIdxs]
                   · split at hae
                     · simp only [Prod.mk.injEq, and_true] at hae
                       obtain ⟨_, rfl⟩ := hae
@@ -451,22 +462,31 @@ theorem run_spec : ∀ (ops : List Op) (n n' : Node) (evs : List Ev) (f : Nat),
 
 /-! ## The enabled version is a function of the applied entries -/
 
-/-- The enabled version after applying `es` in order, starting from `init`: the last VERSION entry wins. -/
-def lastVersion (init : Nat) : List Entry → Nat
+/-- The enabled version after applying `es` in order, starting from `init`: the HIGHEST version among `init` and the
+VERSION entries (an entry below the version enabled at its position changes nothing, repair D71). -/
+def versionAfter (init : Nat) : List Entry → Nat
   | [] => init
-  | e :: es => lastVersion (match e.cmd with | .version v => v | _ => init) es
+  | e :: es => versionAfter (match e.cmd with | .version v => max init v | _ => init) es
 
 theorem applyEntry_enabled {n n' : Node} {e : Entry} {evs : List Ev} (h : applyEntry n e = (n', evs, true)) :
-    n'.enabled = (match e.cmd with | .version v => v | _ => n.enabled) := by
+    n'.enabled = (match e.cmd with | .version v => max n.enabled v | _ => n.enabled) := by
   unfold applyEntry at h
   simp only at h
   split at h
   · rename_i v hv
     split at h
     · simp at h
-    · simp only [Prod.mk.injEq, and_true] at h
-      obtain ⟨rfl, _⟩ := h
-      simp [hv]
+    · split at h
+      · rename_i hlt
+        simp only [Prod.mk.injEq, and_true] at h
+        obtain ⟨rfl, _⟩ := h
+        simp only [hv]
+        omega
+      · rename_i hge
+        simp only [Prod.mk.injEq, and_true] at h
+        obtain ⟨rfl, _⟩ := h
+        simp only [hv]
+        omega
   · rename_i fid arg hc
     split at h
     · simp only [Prod.mk.injEq, and_true] at h
@@ -485,10 +505,10 @@ theorem applyEntry_enabled {n n' : Node} {e : Entry} {evs : List Ev} (h : applyE
     | membership => rfl
     | other t => rfl
 
-/-- A batch that was consumed completely leaves the enabled version `lastVersion` of its entries. -/
+/-- A batch that was consumed completely leaves the enabled version `versionAfter` of its entries. -/
 theorem applyBatch_enabled : ∀ (es : List Entry) (n n' : Node) (evs : List Ev),
     applyBatch n es = (n', evs) → n'.lastApplied = n.lastApplied + es.length →
-    n'.enabled = lastVersion n.enabled es
+    n'.enabled = versionAfter n.enabled es
   | [], n, n', evs, h, _ => by
     simp only [applyBatch, Prod.mk.injEq] at h
     obtain ⟨rfl, _⟩ := h
@@ -534,10 +554,13 @@ theorem applyEntry_ran {n : Node} {e : Entry} {i : Nat} {d : Desc} {x : Nat}
   split at h
   · split at h
     · simp at h
-    · simp only [List.cons_append, List.nil_append, List.mem_cons] at h
-      rcases h with h | h
-      · cases h
-      · exact absurd h (hcb _ _ _)
+    · split at h
+      · simp only [List.nil_append] at h
+        exact absurd h (hcb _ _ _)
+      · simp only [List.cons_append, List.nil_append, List.mem_cons] at h
+        rcases h with h | h
+        · cases h
+        · exact absurd h (hcb _ _ _)
   · rename_i fid arg hc
     split at h
     · simp only [List.cons_append, List.nil_append, List.mem_cons] at h
@@ -566,9 +589,72 @@ theorem applyEntry_table {n : Node} {e : Entry} (h : n.tableVer = n.enabled) :
   unfold applyEntry
   simp only
   split
-  · split <;> simp [h]
+  · split
+    · simp [h]
+    · split <;> simp [h]
   · split <;> simp [h]
   · simp [h]
+
+/-- The enabled version never goes down (repair D71). -/
+theorem applyEntry_mono (n : Node) (e : Entry) : n.enabled ≤ (applyEntry n e).1.enabled := by
+  unfold applyEntry
+  simp only
+  split
+  · split
+    · exact Nat.le_refl _
+    · split
+      · exact Nat.le_refl _
+      · simp only; omega
+  · split <;> exact Nat.le_refl _
+  · exact Nat.le_refl _
+
+theorem applyBatch_mono : ∀ (es : List Entry) (n : Node), n.enabled ≤ (applyBatch n es).1.enabled
+  | [], n => Nat.le_refl _
+  | e :: rest, n => by
+    have h1 := applyEntry_mono n e
+    unfold applyBatch
+    cases hae : applyEntry n e with
+    | mk n1 r =>
+      cases r with
+      | mk evs1 b =>
+        rw [hae] at h1
+        cases b with
+        | true =>
+          have h2 := applyBatch_mono rest n1
+          simp only
+          cases hb : applyBatch n1 rest with
+          | mk n2 evs2 =>
+            rw [hb] at h2
+            exact Nat.le_trans h1 h2
+        | false => exact h1
+
+theorem step_mono (n : Node) (o : Op) : n.enabled ≤ (step n o).1.enabled := by
+  cases o with
+  | tick =>
+    simp only [step, applyLogEntries]
+    split
+    · exact Nat.le_refl _
+    · split
+      · exact applyBatch_mono _ n
+      · exact Nat.le_refl _
+  | setCommit c => exact Nat.le_refl _
+  | append es => exact Nat.le_refl _
+  | subscribe i t cb => exact Nat.le_refl _
+
+theorem run_mono : ∀ (ops : List Op) (n : Node), n.enabled ≤ (run n ops).1.enabled
+  | [], n => Nat.le_refl _
+  | o :: os, n => by
+    have h1 := step_mono n o
+    unfold run
+    cases hs : step n o with
+    | mk n1 evs1 =>
+      rw [hs] at h1
+      have h2 := run_mono os n1
+      simp only
+      cases hr : run n1 os with
+      | mk n2 evs2 =>
+        rw [hr] at h2
+        exact Nat.le_trans h1 h2
 
 theorem applyBatch_table : ∀ (es : List Entry) (n : Node), n.tableVer = n.enabled →
     (applyBatch n es).1.tableVer = (applyBatch n es).1.enabled ∧ (applyBatch n es).1.cls = n.cls
